@@ -132,6 +132,8 @@ def armSoundIn (s : Scalar) (k : Kind) (a : Action) : Bool :=
   | .timeOfInt => k.isInt && s == .time
   | .timeOfFloat => k.isFloat && s == .time
   | .timeParseKeep => k == .str && s == .time
+  | .convStrict t => k.isFloat && ((s == .float && t == .f32) || (s == .float64 && t == .f64))
+  | .parseFloatFinite => k == .str && s == .float64
   | _ => false
 
 /-- the time scalar's output arms produce a `time`, formatted after the switch -/
